@@ -73,8 +73,9 @@ class DefaultsDefinition(
             *tuple(self.get_key(key) for key in self._valid_fields)
         )
 
-    def get_key(self, key: str) -> str:
+    def get_key(self, key: str) -> ty.Optional[str]:
         for stmt in self.body:
             if isinstance(stmt, plain.Equality) and stmt.lhs == key:
                 return stmt.rhs
-        raise KeyError(key)
+        # Both fields are optional: a missing one keeps the current default.
+        return None
